@@ -50,6 +50,8 @@ const P_RMS_DETECTOR: usize = 4;
 const P_BOUNDARY_SAMPLE: usize = 5;
 const P_ATTACK_USED: usize = 6;
 const P_RELEASE_USED: usize = 7;
+const P_CONVERGENCE_HORIZON: usize = 8;
+const P_LOUD_FLOAT: usize = 9;
 
 /// Concrete helpers per frame format.
 pub trait EnvFrame: Frame + Debug + 'static {
@@ -79,14 +81,15 @@ macro_rules! env_frame {
             fn from_unit(v: &[f64]) -> Self {
                 <$T as Frame>::from_fn(|ch| v[ch].to_sample::<$S>())
             }
+            // (independent decoding of the raw representation, see raw.rs)
             fn unit(self) -> Vec<f64> {
-                self.channels().map(|s| s.to_sample::<f64>()).collect()
+                self.channels().map(|s| crate::raw::norm::<$S>(s)).collect()
             }
             fn unit_signed(o: <$T as Frame>::Signed) -> Vec<f64> {
-                o.channels().map(|s| s.to_sample::<f64>()).collect()
+                o.channels().map(|s| crate::raw::norm::<<$S as Sample>::Signed>(s)).collect()
             }
             fn unit_float(o: <$T as Frame>::Float) -> Vec<f64> {
-                o.channels().map(|s| s.to_sample::<f64>()).collect()
+                o.channels().map(|s| crate::raw::norm::<<$S as Sample>::Float>(s)).collect()
             }
             fn float_zero() -> <$T as Frame>::Float {
                 <<$T as Frame>::Float as Frame>::EQUILIBRIUM
@@ -258,6 +261,10 @@ struct Model {
     last_input: Option<Vec<f64>>,
     last_gap: Vec<f64>,
     last_dir: Vec<i8>,
+    /// constant-input stretch: frames so far, gap and time constant when it began (per channel)
+    const_n: Vec<u32>,
+    const_gap0: Vec<f64>,
+    const_frames: Vec<f32>,
     /// frames pushed into the RMS window and the largest square seen (for C11's rigorous bound)
     rms_t: u64,
     rms_max_sq: f64,
@@ -382,6 +389,50 @@ fn check_frame<F: EnvFrame>(m: &mut Model, x: &[f64], got: &[f64], out_lsb: f64,
                 ch
             );
         }
+        // bounded progress ("converges"): n frames into a stretch of constant input with an unchanged
+        // time constant the gap is at most g^n of what it was, up to the rounding of n steps
+        if constant && m.const_n[ch] > 0 && m.const_frames[ch] == frames {
+            m.const_n[ch] += 1;
+            // steps taken since the gap was recorded
+            let n = (m.const_n[ch] - 1) as f64;
+            // integer outputs: the correction is truncated toward zero, so the gap shrinks at least
+            // geometrically down to the last step.  Float outputs: once gap x (1 - g) falls below the
+            // spacing of the output format around the envelope, the documented expression rounds back to
+            // the same value — an inherent floor of spacing / (1 - g).
+            // (the f32 gain e^(-1/frames) carries a relative error of about (1/frames + 2) ulp)
+            let rel = (8.0 + 4.0 / (frames as f64).max(1e-6)) * E32;
+            let geometric = m.const_gap0[ch] * g.powf(n) * (1.0 + rel).powf(n);
+            let bound = if out_lsb > 0.0 {
+                geometric + 2.0 * out_lsb
+            } else {
+                // every step rounds the envelope once in the output format: the roundings accumulate
+                // to at most spacing x (1 + g + g^2 + ..) = spacing / (1 - g)
+                let spacing = 4.0 * out_eps * dv.abs().max(env.abs()) + tiny;
+                geometric + spacing / (1.0 - g).max(1e-12) + spacing
+            };
+            if n >= 3.0 / (1.0 - g).max(1e-9) {
+                obs.probe(P_CONVERGENCE_HORIZON);
+            }
+            check!(
+                obs,
+                gap <= bound,
+                "envelope.converges",
+                "constant input for {} frames ({} = {} frames, gain {}): |envelope - detected| is {} on channel {}, at most {} (from {} when the stretch began)",
+                n,
+                if attack_selected { "attack" } else { "release" },
+                frames,
+                g,
+                gap,
+                ch,
+                bound,
+                m.const_gap0[ch]
+            );
+        } else {
+            // (re)start: this frame's outcome is the stretch's starting point
+            m.const_n[ch] = 1;
+            m.const_gap0[ch] = gap;
+            m.const_frames[ch] = frames;
+        }
         let dir = if attack_selected { 1 } else { -1 };
         if m.last_dir[ch] != 0 && m.last_dir[ch] != dir {
             obs.fault(F_DIRECTION_FLIP);
@@ -435,6 +486,9 @@ where
         last_input: None,
         last_gap: vec![f64::INFINITY; chans],
         last_dir: vec![0; chans],
+        const_n: vec![0; chans],
+        const_gap0: vec![0.0; chans],
+        const_frames: vec![0.0; chans],
         rms_t: 0,
         rms_max_sq: 0.0,
         rms_tol: vec![0.0; chans],
@@ -470,6 +524,13 @@ where
     let mut fed = 0u64;
     let mut level = 0.0f64;
     let mut hold = 0i64;
+    let mut hold_b = 0i64;
+    // float formats are not confined to [-1, 1]: some runs are loud
+    let loud = src.cfg("loud_float", 0, 1, |r| (F::IS_FLOAT && r.chance(1, 4)) as i64) == 1 && F::IS_FLOAT;
+    let (lo, hi) = if loud { (-8.0, 8.0) } else { (F::lo(), F::hi()) };
+    if loud {
+        obs.probe(P_LOUD_FLOAT);
+    }
     loop {
         let op = src.next_op(|r| {
             if done >= steps {
@@ -486,24 +547,27 @@ where
                         hold -= 1;
                     } else {
                         match shape {
-                            0 => level = (level + r.f64_in(0.0, 0.1)).min(F::hi()),
-                            1 => level = (level - r.f64_in(0.0, 0.1)).max(F::lo()),
+                            0 => level = (level + r.f64_in(0.0, 0.1) * hi).min(hi),
+                            1 => level = (level - r.f64_in(0.0, 0.1) * hi).max(lo),
                             2 => {
-                                level = r.f64_in(F::lo(), F::hi());
-                                hold = r.range(2, 12);
+                                level = r.f64_in(lo, hi);
+                                // (rarely long enough for the follower to settle at slow time constants)
+                                hold = if r.chance(1, 5) { r.range(60, 400) } else { r.range(2, 12) };
+                                hold_b = r.range(0, 3);
                             }
-                            3 => level = if level > 0.0 { -r.unit() * 0.9 } else { r.unit() * 0.9 },
+                            3 => level = if level > 0.0 { -r.unit() * 0.9 * hi } else { r.unit() * 0.9 * hi },
                             _ => {
                                 level = match r.below(6) {
                                     0 => 0.0,
-                                    1 => F::lo(),
-                                    2 => F::hi(),
-                                    _ => r.f64_in(F::lo(), F::hi()),
+                                    1 => lo,
+                                    2 => hi,
+                                    _ => r.f64_in(lo, hi),
                                 }
                             }
                         }
                     }
-                    Op::kab(O_FRAME, f2i(level), r.range(0, 3))
+                    // (the per-channel pattern stays put during a hold, so the whole frame is constant)
+                    Op::kab(O_FRAME, f2i(level), if hold > 0 { hold_b } else { r.range(0, 3) })
                 }
             })
         });
@@ -530,16 +594,16 @@ where
                             // a channel that moves against channel 0
                             _ => {
                                 if chans > 1 && ch > 0 {
-                                    (F::hi() - base.abs()).max(0.0)
+                                    (hi - base.abs()).max(0.0)
                                 } else {
                                     base
                                 }
                             }
                         };
-                        v.clamp(F::lo(), F::hi())
+                        v.clamp(lo, hi)
                     })
                     .collect();
-                if vals.iter().any(|v| *v == F::lo() || *v == F::hi()) {
+                if vals.iter().any(|v| *v == lo || *v == hi) {
                     obs.probe(P_BOUNDARY_SAMPLE);
                 }
                 let frame = F::from_unit(&vals);
@@ -678,6 +742,8 @@ impl Scenario for EnvelopeScenario {
             "sample at the boundary of the negatable range",
             "attack gain selected",
             "release gain selected",
+            "constant stretch longer than 3 time constants (bounded progress checked at the horizon)",
+            "float input beyond [-1, 1]",
         ]
     }
     fn rule(&self) -> &'static str {
